@@ -241,6 +241,33 @@ func c01Assign(c *c01) {
 			}
 		}
 	}
+	// S5: target op= value on the built-in mutable types runs their in-place method, which
+	// changes the one object every alias shares; a plain binary operator never does, and an
+	// augmented assignment to an immutable value rebinds the target only
+	for _, t := range []struct{ init, alias, stmt string }{
+		{"x = [1]", "y = x", "x"}, {"c = [[1]]", "y = c[0]", "c[vh.v(0, 0)]"}, {"O.b = [1]", "y = O.b", "O.b"},
+	} {
+		pre := []string{}
+		if strings.Contains(t.stmt, "vh.v(0") {
+			pre = []string{"0"}
+		}
+		n := itoa(len(pre))
+		lg := append(append([]string{}, pre...), n)
+		check("aug-alias", t.init+"\n"+t.alias+"\n"+t.stmt+" += vh.v("+n+", [2])\n", lg, map[string]string{"y": "[1,2]"}, "")
+		check("aug-alias", t.init+"\n"+t.alias+"\n"+t.stmt+" *= vh.v("+n+", 2)\n", lg, map[string]string{"y": "[1,1]"}, "")
+		check("aug-alias", t.init+"\n"+t.alias+"\nz = "+t.stmt+" + vh.v("+n+", [2])\n", lg, map[string]string{"y": "[1]", "z": "[1,2]"}, "")
+		check("aug-alias", t.init+"\n"+t.alias+"\nz = "+t.stmt+" * vh.v("+n+", 2)\n", lg, map[string]string{"y": "[1]", "z": "[1,1]"}, "")
+	}
+	check("aug-alias", "x = (1,)\ny = x\nx += vh.v(0, (2,))\n", []string{"0"}, map[string]string{"x": "(1,2)", "y": "(1)"}, "")
+	check("aug-alias", "x = (1, 2, 3)[:1]\ny = x\nx += vh.v(0, (2,))\nw = y\n", []string{"0"}, map[string]string{"x": "(1,2)", "w": "(1)"}, "")
+	for _, so := range []struct{ op, res string }{{"|", "set{1,2,3}"}, {"&", "set{2}"}, {"-", "set{1}"}, {"^", "set{1,3}"}} {
+		check("aug-alias", "s = {1, 2}\nt = s\ns "+so.op+"= vh.v(0, {2, 3})\n", []string{"0"}, map[string]string{"t": so.res, "s": so.res}, "")
+		check("aug-alias", "s = {1, 2}\nt = s\nu = s "+so.op+" vh.v(0, {2, 3})\n", []string{"0"}, map[string]string{"t": "set{1,2}", "u": so.res}, "")
+	}
+	check("aug-alias", "s = b'a'\nt = s\ns += vh.v(0, b'b')\n", []string{"0"}, map[string]string{"s": "b\"ab\"", "t": "b\"a\""}, "")
+	check("aug-alias", "s = bytes(iter([97, 98, 99]))\nt = s\nt += b'x'\nu = s\nu += vh.v(0, b'y')\n", []string{"0"}, map[string]string{"s": "b\"abc\"", "t": "b\"abcx\"", "u": "b\"abcy\""}, "")
+	check("aug-alias", "s = tuple(iter([1, 2, 3]))\nt = s\nt += (7,)\nu = s\nu += vh.v(0, (8,))\n", []string{"0"}, map[string]string{"s": "(1,2,3)", "t": "(1,2,3,7)", "u": "(1,2,3,8)"}, "")
+	check("aug-alias", "s = 'a'\nt = s\ns += vh.v(0, 'b')\n", []string{"0"}, map[string]string{"s": "'ab'", "t": "'a'"}, "")
 	// decorated definitions: decorators (top to bottom), then defaults, keyword-only defaults
 	// and annotations are evaluated at definition time, in that order; then the decorators
 	// are applied bottom-up
